@@ -314,6 +314,10 @@ def fan_cfgs(tier):
     C["nb-machine-cconv-out-w2-tie"] = dict(n_src=2, n_out=1, n_items=2, w=2, out_kind="cconv", out_cap=3, blocking=False, same_iat=True, out_delay=0)
     C["nb-machine-cconv-out-slow"] = dict(n_src=1, n_out=1, n_items=4, w=1, out_kind="cconv", out_cap=2, blocking=False, sym=("iat", "pd"), second_machine=True,
                                           out_delay=0)
+    C["fanout-w2-buffer-fleet-tie"] = dict(n_src=2, n_out=2, n_items=2, w=2, out_kind=("buffer", "fleet"), out_cap=1, same_iat=True, sym=("iat",),
+                                           conv_kw=dict(fdelay=1, transit=0.5), until=14)
+    C["line-sconv-in"] = dict(n_src=1, n_out=1, n_items=3, w=1, in_kind="sconv", in_cap=3, sym=("iat", "pd"), out_delay=0)
+    C["line-sconv-out"] = dict(n_src=1, n_out=1, n_items=3, w=2, out_kind="sconv", out_cap=3, sym=("iat", "pd"))
     C["nb-source-idx"] = dict(n_src=1, n_out=1, n_items=4, w=1, in_cap=1, src_blocking=False)
     C["nb-source-fa"] = dict(n_src=1, n_out=1, n_items=4, w=1, in_cap=1, src_blocking=False, src_out_sel="FIRST_AVAILABLE")
     C["rr-in"] = dict(n_src=2, n_out=1, n_items=2, w=1, in_sel="ROUND_ROBIN")
@@ -446,8 +450,8 @@ PROPS["C18"] = {
                    "timestamps are non-decreasing along each route. Buffer, Fleet and continuous-conveyor edges; the statistic is read twice for the same end time (must not change), and in the "
                    "two-stage jobs the simulation is continued after the first reading to a second symbolic end time where everything is checked again.",
     "jobs": lambda tier: fan_jobs("C18", tier, names=["line-w1", "line-w2-per-item", "line-indelay", "line-zero-iat", "fanin-fa", "fanout-fa", "nb-machine-fa", "nb-source-idx", "idx-out", "rr-out",
-                                                      "line-fleet-out", "line-cconv-in", "line-cconv-out"], extra_kw={"until": "sym"}) + [
-        dict(j, name=j["name"] + "/two-stage") for j in fan_jobs("C18", tier, names=["line-w1", "fanout-fa", "line-fleet-out", "line-cconv-in", "line-cconv-out"],
+                                                      "line-fleet-out", "line-cconv-in", "line-cconv-out", "line-sconv-in", "line-sconv-out"], extra_kw={"until": "sym"}) + [
+        dict(j, name=j["name"] + "/two-stage") for j in fan_jobs("C18", tier, names=["line-w1", "fanout-fa", "line-fleet-out", "line-cconv-in", "line-cconv-out", "line-sconv-out"],
                                                                  extra_kw={"until": "sym", "two_stage": True}, budget=20 if tier == "quick" else 90)],
     "required_witnesses": ["C18:counters-checked", "C18:cycle-time-checked", "C18:time-average-checked", "two-stage-finalisation"],
     "nontrivial_witnesses": ["complete"],
@@ -588,6 +592,8 @@ def pk_cfgs(tier):
     C["r11-varying-consumer"] = dict(recipe=(1, 1), n_pallets=3, comb_only=True, out_delay="sym-each", mid_cap=1, sym=("pd",))
     C["r12-blocked-out"] = dict(recipe=(1, 2), n_pallets=3, comb_only=True, out_delay="sym", mid_cap=1, sym=("ip", "pd"))
     C["r12-comb-only"] = dict(recipe=(1, 2), n_pallets=2, comb_only=True, out_delay="sym")
+    C["r13-nb-rr2-split"] = dict(recipe=(1, 3), n_pallets=2, split_out=2, split_sel="ROUND_ROBIN", blocking=True, split_blocking=False, out_delay="sym-first", sym=("ii", "sd"), item_cap=3)
+    C["r12-nb-idx-split"] = dict(recipe=(1, 2), n_pallets=2, split_sel=0, blocking=True, split_blocking=False, out_delay="sym", sym=("ip", "sd"))
     # two-stage packing: loaded pallets of the first combiner are the pallets of a second one
     C["two-stage-r11-r12"] = dict(recipe=(1, 1), recipe2=(1, 2), n_pallets=2, sym=("ii",))
     C["two-stage-r11-r11-slow-consumer"] = dict(recipe=(1, 1), recipe2=(1, 1), n_pallets=3, sym=("ip",), comb_only=True, out_delay="sym", mid_cap=1)
@@ -637,18 +643,18 @@ PROPS["C16"] = {
 
 # the pallet scenarios also serve C03 / C08 / C09 / C10 / C17 / C18
 _c10_jobs = PROPS["C10"]["jobs"]
-PROPS["C10"]["jobs"] = lambda tier: _c10_jobs(tier) + pk_jobs("C10", tier, names=["r11", "r12", "r13-cap1", "r111", "r11-rr2", "two-stage-r11-r12"])
+PROPS["C10"]["jobs"] = lambda tier: _c10_jobs(tier) + pk_jobs("C10", tier, names=["r11", "r12", "r13-cap1", "r111", "r11-rr2", "two-stage-r11-r12", "r12-fa2", "r11-rr2-blocked"])
 _c09_jobs = PROPS["C09"]["jobs"]
-PROPS["C09"]["jobs"] = lambda tier: _c09_jobs(tier) + pk_jobs("C09", tier, names=["r12-nonblocking", "r13-nonblocking-split", "r11", "r12-nb-idx-cconv-out", "r12-nb-fa-cconv-out", "r11-nb-idx-cconv-mid"]) + srcfan_jobs("C09", tier)
+PROPS["C09"]["jobs"] = lambda tier: _c09_jobs(tier) + pk_jobs("C09", tier, names=["r12-nonblocking", "r13-nonblocking-split", "r11", "r12-nb-idx-cconv-out", "r12-nb-fa-cconv-out", "r11-nb-idx-cconv-mid", "r13-nb-rr2-split", "r12-nb-idx-split"]) + srcfan_jobs("C09", tier)
 _c18_jobs = PROPS["C18"]["jobs"]
-PROPS["C18"]["jobs"] = lambda tier: _c18_jobs(tier) + pk_jobs("C18", tier, names=["r11", "r12", "r12-comb-only"], extra_kw={"until": "sym"})
+PROPS["C18"]["jobs"] = lambda tier: _c18_jobs(tier) + pk_jobs("C18", tier, names=["r11", "r12", "r12-comb-only", "r12-nb-idx-split", "r13-nb-rr2-split", "r12-nonblocking"], extra_kw={"until": "sym"})
 _c03_jobs = PROPS["C03"]["jobs"]
 PROPS["C03"]["jobs"] = lambda tier: _c03_jobs(tier) + pk_jobs("C03", tier, names=["r11", "r12", "r11-rr2", "r12-nonblocking", "r12-comb-only", "r11-lifo-mid", "r12-idx-cconv-out", "r12-nb-idx-cconv-out", "r11-nb-idx-cconv-mid", "r11-idx-fleet-mid", "two-stage-r11-r12", "two-stage-r11-r11-slow-consumer"])
 _c08_jobs = PROPS["C08"]["jobs"]
 PROPS["C08"]["jobs"] = lambda tier: _c08_jobs(tier) + pk_jobs("C08", tier, names=["r11", "r12", "r111", "r11-rr2", "r11-split-in-idx", "r12-blocked-out", "r11-varying-consumer", "no-combiner-rr"])
 PROPS["C08"]["required_witnesses"] = PROPS["C08"]["required_witnesses"] + ["C08:combiner-residence-checked"]
 _c17_jobs = PROPS["C17"]["jobs"]
-PROPS["C17"]["jobs"] = lambda tier: _c17_jobs(tier) + pk_jobs("C17", tier, names=["r11", "r12", "r11-rr2", "r11-rr2-blocked", "r12-fa2", "no-combiner-rr"], extra_kw={"until": "sym"}) + pk_jobs(
+PROPS["C17"]["jobs"] = lambda tier: _c17_jobs(tier) + pk_jobs("C17", tier, names=["r11", "r12", "r11-rr2", "r11-rr2-blocked", "r12-fa2", "no-combiner-rr", "r12-blocked-out", "r12-nb-idx-split"], extra_kw={"until": "sym"}) + pk_jobs(
     "C17", tier, names=["r11"], extra_kw={"until": "sym", "setup": 1})
 PROPS["C17"]["required_witnesses"] = PROPS["C17"]["required_witnesses"] + ["C17:finalised@Splitter", "C17:finalised@Combiner", "selftest-row"]
 _c17_jobs2 = PROPS["C17"]["jobs"]
